@@ -73,7 +73,7 @@ def e1_evidence(prop, tier, seed, tasks, results, violations, known_hits, harnes
         "known_findings_hit": {k: len(v) for k, v in known_hits.items()},
         "harness_errors": [{"id": h.get("id"), "why": h.get("reason")} for h in harness][:10],
         "functions_encoded": "answer-set semantics of gringo's open grounding of the source and of the text returned by the real ngo.api.optimize (passes enabled per task) -- see DESIGN.md section 2",
-        "bounds": "universe per argument position of every input predicate as recorded per sample (default 3 values, coverage-guided choice, shrunk on solver timeout); solver budget per query: quick 12 s / thorough 90 s; thorough decides every pair over two universes (the second one around a larger constant of the program, else one with a negative value); outside: larger universes, terms not in the universe, theory atoms, externals (non head-cycle-free disjunction, e.g. gringo's translation of recursive non-monotone aggregates, is encoded with a universally quantified unfounded-set block)",
+        "bounds": "universe per argument position of every input predicate as recorded per sample (default 3 values, coverage-guided choice, shrunk on solver timeout); solver budget per query: quick 12 s / thorough 60 s (300 s per program and configuration); thorough decides every pair over two universes (the second one around a larger constant of the program, else one with a negative value); outside: larger universes, terms not in the universe, theory atoms, externals (non head-cycle-free disjunction, e.g. gringo's translation of recursive non-monotone aggregates, is encoded with a universally quantified unfounded-set block)",
         "solvers": solve.solver_versions(),
         "exhaustive": False,
     }
